@@ -387,9 +387,10 @@ func (s *Store) deleteSessionTxn(tx WriteTxn, idx uint64, sessionID string, entM
 				return fmt.Errorf("failed kvs update: %s", err)
 			}
 
-			// Apply the lock delay if present.
+			// Apply the lock delay if present, once the invalidation is committed.
 			if delay > 0 {
-				s.lockDelay.SetExpiration(e.Key, now, delay, entMeta)
+				key := e.Key
+				tx.Defer(func() { s.lockDelay.SetExpiration(key, now, delay, entMeta) })
 			}
 		}
 	case structs.SessionKeysDelete:
@@ -399,9 +400,10 @@ func (s *Store) deleteSessionTxn(tx WriteTxn, idx uint64, sessionID string, entM
 				return fmt.Errorf("failed kvs delete: %s", err)
 			}
 
-			// Apply the lock delay if present.
+			// Apply the lock delay if present, once the invalidation is committed.
 			if delay > 0 {
-				s.lockDelay.SetExpiration(e.Key, now, delay, entMeta)
+				key := e.Key
+				tx.Defer(func() { s.lockDelay.SetExpiration(key, now, delay, entMeta) })
 			}
 		}
 	default:
